@@ -29,6 +29,8 @@ type cacheRef struct {
 
 type cacheEv struct {
 	simrt.EvSpec
+	D2    string `json:"d2,omitempty"` // value of a second d tag appended after all other tags
+	HasD2 bool   `json:"has_d2,omitempty"`
 	Refs []cacheRef `json:"refs,omitempty"` // for kind 5 (and as ordinary e/a tags on other kinds)
 }
 
@@ -60,7 +62,7 @@ func (cacheEngine) Decode(b []byte) (any, error) {
 }
 
 var cacheKinds = []int64{1, 1, 5, 5, 0, 3, 10002, 30000, 30000, 30001, 20001, 7}
-var cacheEdgeKinds = []int64{9999, 10000, 10000, 19999, 19999, 20000, 29999, 30000, 39999, 39999, 40000, 65535}
+var cacheEdgeKinds = []int64{9999, 10000, 10000, 19999, 19999, 20000, 29999, 30000, 39999, 39999, 40000, 65535, 65536, 100000}
 var cacheDs = []string{"", "a", "b:c"}
 
 // build resolves references into tags; events are pure functions of the case.
@@ -107,6 +109,9 @@ func (c *CacheCase) build() []*mocrelay.Event {
 				tag = append(tag, "wss://relay.example")
 			}
 			tags = append(tags, tag)
+		}
+		if sp.HasD2 {
+			tags = append(tags, []string{"d", sp.D2})
 		}
 		s := sp.EvSpec
 		s.Tags = tags
@@ -222,6 +227,11 @@ func genCacheEvents(t *rapid.T, c *CacheCase, nev int) {
 				e.Tags = append(e.Tags, []string{"d"}) // d tag without value = ""
 			default:
 				e.Tags = append(e.Tags, []string{"d", rapid.SampledFrom(cacheDs).Draw(t, "d")})
+				// a second d tag further back: the FIRST one identifies the event
+				if rapid.IntRange(0, 5).Draw(t, "d2") == 0 {
+					e.D2 = rapid.SampledFrom(cacheDs).Draw(t, "d2v")
+					e.HasD2 = true
+				}
 			}
 		}
 		if rapid.IntRange(0, 2).Draw(t, "ttag") == 0 {
